@@ -13,6 +13,7 @@ import Liftbridge.Driver.GroupsDrv
 import Liftbridge.Driver.SealDrv
 import Liftbridge.Driver.GroupSubDrv
 import Liftbridge.Driver.ActivityDrv
+import Liftbridge.Driver.FailoverDrv
 
 namespace Liftbridge.Driver
 open Liftbridge
@@ -22,6 +23,7 @@ structure St where
   groups : GroupsSt := {}
   groupSub : GroupSubSt := {}
   activity : ActivitySt := {}
+  failover : FailoverSt := {}
 
 def showRes {α} (f : α → String) : Res α → String
   | .ok a => "ok " ++ f a
@@ -58,6 +60,7 @@ def step (st : St) (line : String) : St × String :=
   | "c19" :: rest => (st, c19 rest)
   | "c15" :: rest => (st, c15Step rest)
   | "c17" :: rest => (st, c17 rest)
+  | "c07" :: rest => let (f, out) := failoverStep st.failover rest; ({ st with failover := f }, out)
   | "c18" :: rest => let (a, out) := activityStep st.activity rest; ({ st with activity := a }, out)
   | "c13" :: rest => let (g, out) := groupSubStep st.groupSub rest; ({ st with groupSub := g }, out)
   | "c12" :: rest => let (g, out) := groupsStep st.groups rest; ({ st with groups := g }, out)
